@@ -21,6 +21,9 @@
    - the version a queued operation was accepted under is in the table (inv_qver of Proofs.v);
    - the observer finds a protocol version for every anchored transaction (inv_ledger), so nothing is
      dropped.
+   F16: a forced cut whose operations have all expired writes no transaction but still removes the batch from
+   the queue (the operations go to the expired pile), so the progress argument (cut_shrinks) is unchanged:
+   all_expired_round below shows such a round.
    no_version_refuted shows an (unreachable) state violating the first one: the rounds do nothing.
 
    The number of rounds is tight: bound_is_tight (k queued operations of ONE suffix need k rounds, since
@@ -120,7 +123,8 @@ Proof.
   destruct (queue st) as [|q0 r] eqn:Eq; [congruence|].
   destruct (pv_max cur) as [|m] eqn:Em; [lia|].
   cbn [length Nat.min firstn].
-  destruct (Hall q0 (or_introl eq_refl)) as (v & Hvq & _). rewrite Hvq. eexists. reflexivity.
+  destruct (Hall q0 (or_introl eq_refl)) as (v & Hvq & _). rewrite Hvq. cbv zeta.
+  destruct (sp_in _); eexists; reflexivity.
 Qed.
 
 Lemma drain_queue_le cfg ex fuel : forall st, (length (queue (drain cfg ex fuel st)) <= length (queue st))%nat.
@@ -372,6 +376,14 @@ Example eventual_storage_nonvacuous :
   queue st' = [] /\ ledger st' = [] /\
   map qe_id (accepted st') = [1; 2; 3; 4; 5; 6] /\
   map (fun e => qe_id (s_q e)) (store st') = [1; 2; 4; 3; 5] /\ map qe_id (expired st') = [6].
+Proof. vm_compute. repeat split; reflexivity. Qed.
+
+(* F16: a round whose batch is entirely expired: queue emptied, nothing anchored or stored, no number consumed *)
+Example all_expired_round :
+  let st := run cfg1 (init 10) pending_events in
+  let st' := run cfg1 st (rounds [[5; 6]]) in
+  map qe_id (queue st) = [5; 6] /\ queue st' = [] /\ ledger st' = [] /\ next_num st' = next_num st /\
+  store st' = store st /\ map qe_id (expired st') = [5; 6].
 Proof. vm_compute. repeat split; reflexivity. Qed.
 
 Print Assumptions reachable_version_in_force.
